@@ -1,0 +1,32 @@
+//go:build verif
+
+package rtsp
+
+import "fmt"
+
+func verifTransport(t transport) string {
+	b := func(v bool) int {
+		if v {
+			return 1
+		}
+		return 0
+	}
+	return fmt.Sprintf("a%d,%d.%d;v%d,%d.%d", b(t.audioRtpConn != nil && t.audioRtcpConn != nil), t.audioRtpChannel, t.audioRtcpChannel,
+		b(t.videoRtpConn != nil && t.videoRtcpConn != nil), t.videoRtpChannel, t.videoRtcpChannel)
+}
+
+// VerifState tells the verification harness which media session the command session carries
+// (pub / sub / none; for a sub session whether its sdp has been fed) and the transports set up so far.
+func (session *ServerCommandSession) VerifState() string {
+	if session.pubSession != nil {
+		return "pub:" + verifTransport(session.pubSession.baseInSession.tp.get())
+	}
+	if session.subSession != nil {
+		sdp := "nosdp"
+		if session.subSession.baseOutSession.tp.sdp() != nil {
+			sdp = "sdp"
+		}
+		return "sub-" + sdp + ":" + verifTransport(session.subSession.baseOutSession.tp.get())
+	}
+	return "none"
+}
